@@ -9,6 +9,7 @@
                           write() and read() take fault rules with the pseudo-path "fd<N>"
    SYSSHIM_SIGNAL=<call>:<path-substring>:<nth>:<signo> : raise(signo) right AFTER that call returned
    also interposed (logged, faultable): ftruncate (path fd<N>), alarm (logged only)
+   SYSSHIM_PID=<n> / SYSSHIM_TIME=<t> : getpid() / time() return these (for name-collision scenarios)
    The shim changes nothing unless told to. */
 #define _GNU_SOURCE
 #include <dlfcn.h>
@@ -75,7 +76,7 @@ static void slog(const char *fmt, ...) {
     if (logfd >= 0 && logfd < 100) { int f2 = fcntl(logfd, F_DUPFD_CLOEXEC, 200); if (f2 >= 0) { close(logfd); logfd = f2; } }
   }
   if (logfd < 0) return;
-  n = snprintf(buf, sizeof buf, "%d ", (int) getpid());
+  { pid_t (*rgetpid)(void) = dlsym(RTLD_NEXT, "getpid"); n = snprintf(buf, sizeof buf, "%d ", (int) rgetpid()); }
   va_start(ap, fmt); n += vsnprintf(buf + n, sizeof buf - n - 1, fmt, ap); va_end(ap);
   if (n > (int) sizeof buf - 2) n = sizeof buf - 2;
   buf[n++] = '\n';
@@ -122,6 +123,18 @@ int fsync(int fd) { REAL(fsync); char nm[32]; int e, r; snprintf(nm, sizeof nm, 
 int ftruncate(int fd, off_t len) { REAL(ftruncate); char nm[32]; int e, r; snprintf(nm, sizeof nm, "fd%d", fd); e = fault("ftruncate", nm);
   if (e) { errno = e; slog("ftruncate %d %ld = -1 %d INJECTED", fd, (long) len, e); return -1; }
   r = real(fd, len); { int se = errno; slog("ftruncate %d %ld = %d %d", fd, (long) len, r, r ? se : 0); errno = se; } return r; }
+#include <sys/file.h>
+int flock(int fd, int op) { REAL(flock); char nm[32]; int e, r; snprintf(nm, sizeof nm, "fd%d", fd); e = fault("flock", nm);
+  if (e) { errno = e; slog("flock %d %d = -1 %d INJECTED", fd, op, e); return -1; }
+  r = real(fd, op); { int se = errno; slog("flock %d %d = %d %d", fd, op, r, r ? se : 0); errno = se; } return r; }
+int close(int fd) { REAL(close); char nm[32]; int e, r;
+  if (fd == logfd) return 0;
+  if (nrules > 0) { snprintf(nm, sizeof nm, "fd%d", fd); e = fault("close", nm);
+    if (e) { real(fd); errno = e; slog("close %d = -1 %d INJECTED", fd, e); return -1; } }
+  r = real(fd); if (fd >= 3) { int se = errno; slog("close %d = %d", fd, r); errno = se; } return r; }
+#include <time.h>
+pid_t getpid(void) { REAL(getpid); const char *e = getenv("SYSSHIM_PID"); return e ? (pid_t) atol(e) : real(); }
+time_t time(time_t *t) { REAL(time); const char *e = getenv("SYSSHIM_TIME"); time_t v = e ? (time_t) atol(e) : real(0); if (t) *t = v; return v; }
 unsigned int alarm(unsigned int secs) { REAL(alarm); slog("alarm %u", secs); return real(secs); }
 ssize_t read(int fd, void *buf, size_t n) { REAL(read); char nm[32]; int e; snprintf(nm, sizeof nm, "fd%d", fd);
   if (nrules > 0 || nrules < 0 || have_k) { e = fault("read", nm); if (e) { errno = e; slog("read %d = -1 %d INJECTED", fd, e); return -1; } }
